@@ -11,166 +11,124 @@ theorem loopFrom_length (st : LoopState) (ts : List Token) : (loopFrom st ts).le
   | nil => simp [loopFrom]
   | cons t ts ih => simp [loopFrom, ih]
 
-theorem stateAfter_append (st : LoopState) (a b : List Token) :
-    stateAfter st (a ++ b) = stateAfter (stateAfter st a) b := by
-  induction a generalizing st with
-  | nil => simp [stateAfter]
-  | cons t ts ih => simp [stateAfter, ih]
-
-theorem loopFrom_append (st : LoopState) (a b : List Token) :
-    loopFrom st (a ++ b) = loopFrom st a ++ loopFrom (stateAfter st a) b := by
-  induction a generalizing st with
-  | nil => simp [loopFrom, stateAfter]
-  | cons t ts ih => simp [loopFrom, stateAfter, ih]
-
-/-- The emission for token `i` is one `step` from the state reached after the tokens before it. -/
+/-- The emission for token `i` is one `step` from the state reached after the tokens before it,
+looking at the kind of the token after it. -/
 theorem loopFrom_getElem (st : LoopState) (ts : List Token) (i : Nat) (h : i < ts.length) :
     (loopFrom st ts)[i]'(by rw [loopFrom_length]; exact h) =
-      (step (stateAfter st (ts.take i)) ts[i]).2 := by
+      (step (stateAfter st (ts.take i) (ts.drop i)) ts[i] (nextKind (ts.drop (i + 1)))).2 := by
   induction ts generalizing st i with
   | nil => simp at h
   | cons t ts ih =>
     cases i with
     | zero => simp [loopFrom, stateAfter]
     | succ j =>
-      simp only [loopFrom, List.getElem_cons_succ, List.take_succ_cons, stateAfter]
+      simp only [loopFrom, List.getElem_cons_succ, List.take_succ_cons, List.drop_succ_cons, stateAfter,
+        List.take_append_drop]
       exact ih _ j (by simpa using h)
 
+/-- The joined output splits around token `i`. -/
+theorem loopFrom_split (st : LoopState) (ts : List Token) (i : Nat) (h : i < ts.length) :
+    ∃ before after, loopFrom st ts = before ++
+      (step (stateAfter st (ts.take i) (ts.drop i)) ts[i] (nextKind (ts.drop (i + 1)))).2 :: after := by
+  have hl : i < (loopFrom st ts).length := by rw [loopFrom_length]; exact h
+  refine ⟨(loopFrom st ts).take i, (loopFrom st ts).drop (i + 1), ?_⟩
+  rw [← loopFrom_getElem st ts i h, List.getElem_cons_drop, List.take_append_drop]
+
 /-- What `step` appends after the padding. -/
-theorem step_piece (st : LoopState) (t : Token) :
-    (step st t).2.piece =
+theorem step_piece (st : LoopState) (t : Token) (nx : Option Kind) :
+    (step st t nx).2.piece =
       if t.kind = .comment then
         (if (normalizeComment t.str).2 = 0 then .dropped else .hint (normalizeComment t.str).1)
-      else if t.kind = .string ∧ st.prev.opensStmt = true then .pass
+      else if t.kind = .string ∧ st.prev.opensStmt = true ∧ nx = some .newline then .pass
+      else if t.kind = .fstringMiddle then .verbatim (doubleBraces t.str)
       else .verbatim t.str := by
   unfold step
   simp only
   split
   · split <;> rfl
-  · split <;> rfl
+  · split
+    · rfl
+    · split <;> rfl
 
-/-- `previous_token` after one more token. -/
-def nextPrev (p k : Kind) : Kind := if p = .newline ∧ k = .nl then .newline else k
+theorem nextPrev_opens (p k : Kind) :
+    (nextPrev p k).opensStmt = if transparent k = true then p.opensStmt else k.opensStmt := by
+  cases k <;> cases p <;> simp [nextPrev, transparent, Kind.opensStmt]
 
-theorem seen_eq (t : Token) :
-    seen t = !(decide (t.kind = .comment) && decide ((normalizeComment t.str).2 = 0)) := by
-  simp only [seen, isHint]
-  cases hk : t.kind <;> simp [bne]
-  generalize (normalizeComment t.str).2 = n
-  cases n <;> simp
-
-theorem step_prev (st : LoopState) (t : Token) :
-    (step st t).1.prev = if seen t = true then nextPrev st.prev t.kind else st.prev := by
-  rw [seen_eq]
-  unfold step nextPrev
+theorem step_opens (st : LoopState) (t : Token) (nx : Option Kind) :
+    (step st t nx).1.prev.opensStmt =
+      if transparent t.kind = true then st.prev.opensStmt else t.kind.opensStmt := by
+  unfold step
   simp only
   by_cases hc : t.kind = .comment
   · by_cases hn : (normalizeComment t.str).2 = 0
-    · simp [hc, hn]
-    · simp [hc, hn]
-  · by_cases hs : t.kind = .string ∧ st.prev.opensStmt = true
-    · simp [hc, hs]
-    · simp [hc, hs]
+    · simp [hc, hn, transparent]
+    · simp only [hc, hn, if_true, if_false]
+      exact nextPrev_opens _ _
+  · simp only [hc, if_false]
+    split
+    · exact nextPrev_opens _ _
+    · split <;> exact nextPrev_opens _ _
 
-theorem stateAfter_prev (st : LoopState) (pre : List Token) :
-    (stateAfter st pre).prev = ((pre.filter seen).map (·.kind)).foldl nextPrev st.prev := by
+/-- Does the remembered token open a statement, as a fold over the kinds seen. -/
+def opensFold (b : Bool) (k : Kind) : Bool := if transparent k then b else k.opensStmt
+
+theorem stateAfter_opens (st : LoopState) (pre rest : List Token) :
+    (stateAfter st pre rest).prev.opensStmt = (pre.map (·.kind)).foldl opensFold st.prev.opensStmt := by
   induction pre generalizing st with
   | nil => simp [stateAfter]
   | cons t ts ih =>
-    simp only [stateAfter]
-    rw [ih, step_prev, List.filter_cons]
-    by_cases hs : seen t = true <;> simp [hs]
+    simp only [stateAfter, List.map_cons, List.foldl_cons]
+    rw [ih, step_opens]
+    rfl
 
-/-- Characterisation of the remembered token kind, on the list of seen kinds, most recent first. -/
-theorem prev_spec (r : List Kind) :
-    ((r.reverse.foldl nextPrev Kind.indent).opensStmt = atStmtStartRev r) ∧
-      ((r.reverse.foldl nextPrev Kind.indent = Kind.newline) ↔ nlRunAfterNewline r = true) := by
+theorem opensFold_spec (r : List Kind) : r.reverse.foldl opensFold true = atStmtStartRev r := by
   induction r with
-  | nil => simp [atStmtStartRev, nlRunAfterNewline, Kind.opensStmt]
+  | nil => rfl
   | cons k r ih =>
-    simp only [List.reverse_cons, List.foldl_append, List.foldl_cons, List.foldl_nil]
-    generalize r.reverse.foldl nextPrev Kind.indent = p at ih
-    obtain ⟨ih1, ih2⟩ := ih
-    cases k <;> simp only [nextPrev, atStmtStartRev, nlRunAfterNewline, Kind.opensStmt] <;>
-      (try simp) <;> by_cases hp : p = Kind.newline <;> simp_all [Kind.opensStmt]
+    simp only [List.reverse_cons, List.foldl_append, List.foldl_cons, List.foldl_nil, ih, opensFold,
+      atStmtStartRev]
 
-theorem stateAfter_init_opens (pre : List Token) :
-    (stateAfter .init pre).prev.opensStmt = atStmtStartB pre := by
-  rw [stateAfter_prev]
-  have := (prev_spec (seenKindsRev pre)).1
-  simp only [seenKindsRev, List.reverse_reverse] at this
+theorem stateAfter_init_opens (pre rest : List Token) :
+    (stateAfter .init pre rest).prev.opensStmt = atStmtStartB pre := by
+  rw [stateAfter_opens]
+  have := opensFold_spec (pre.map (·.kind)).reverse
+  simp only [List.reverse_reverse] at this
   exact this
 
-theorem nlRun_iff (r : List Kind) :
-    nlRunAfterNewline r = true ↔ ∃ n r', r = List.replicate n Kind.nl ++ Kind.newline :: r' := by
+theorem atStmtStartRev_iff (r : List Kind) :
+    atStmtStartRev r = true ↔
+      (r.dropWhile transparent = [] ∨ ∃ k r', r.dropWhile transparent = k :: r' ∧ k.opensStmt = true) := by
   induction r with
-  | nil =>
-    simp only [nlRunAfterNewline, Bool.false_eq_true, false_iff]
-    rintro ⟨n, r', h⟩
-    cases n <;> simp [List.replicate] at h
+  | nil => simp [atStmtStartRev]
   | cons k r ih =>
-    cases k with
-    | newline =>
-      simp only [nlRunAfterNewline, true_iff]
-      exact ⟨0, r, by simp⟩
-    | nl =>
-      simp only [nlRunAfterNewline]
-      rw [ih]
+    by_cases hk : transparent k = true
+    · simp only [atStmtStartRev, hk, if_true, List.dropWhile_cons]
+      exact ih
+    · simp only [atStmtStartRev, hk, Bool.false_eq_true, if_false, List.dropWhile_cons]
       constructor
-      · rintro ⟨n, r', h⟩
-        exact ⟨n + 1, r', by simp [List.replicate, h]⟩
-      · rintro ⟨n, r', h⟩
-        cases n with
-        | zero => simp at h
-        | succ m =>
-          simp only [List.replicate, List.cons_append, List.cons.injEq, true_and] at h
-          exact ⟨m, r', h⟩
-    | comment | string | indent | dedent | other =>
-      simp only [nlRunAfterNewline, Bool.false_eq_true, false_iff]
-      rintro ⟨n, r', h⟩
-      cases n <;> simp [List.replicate] at h
+      · intro h; exact Or.inr ⟨k, r, rfl, h⟩
+      · rintro (h | ⟨k', r', h, hk'⟩)
+        · cases h
+        · simp only [List.cons.injEq] at h
+          rw [h.1]; exact hk'
 
 theorem atStmtStartB_iff (pre : List Token) : atStmtStartB pre = true ↔ AtStmtStart pre := by
   unfold atStmtStartB AtStmtStart
-  simp only
-  generalize seenKindsRev pre = r
-  cases r with
-  | nil => simp [atStmtStartRev]
-  | cons k r =>
-    cases k with
-    | nl =>
-      simp only [atStmtStartRev, nlRun_iff]
-      constructor
-      · rintro ⟨n, r', h⟩
-        right; right
-        exact ⟨n, r', by simp [List.replicate, h]⟩
-      · rintro (h | ⟨k, r', h, hk⟩ | ⟨n, r', h⟩)
-        · simp at h
-        · simp only [List.cons.injEq] at h
-          rw [← h.1] at hk
-          simp [Kind.opensStmt] at hk
-        · simp only [List.replicate, List.cons_append, List.cons.injEq, true_and] at h
-          exact ⟨n, r', h⟩
-    | newline =>
-      simp only [atStmtStartRev, Kind.opensStmt, true_iff]
-      right; left
-      exact ⟨_, _, rfl, rfl⟩
-    | indent =>
-      simp only [atStmtStartRev, Kind.opensStmt, true_iff]
-      right; left
-      exact ⟨_, _, rfl, rfl⟩
-    | dedent =>
-      simp only [atStmtStartRev, Kind.opensStmt, true_iff]
-      right; left
-      exact ⟨_, _, rfl, rfl⟩
-    | comment | string | other =>
-      simp only [atStmtStartRev, Kind.opensStmt, Bool.false_eq_true, false_iff]
-      rintro (h | ⟨k, r', h, hk⟩ | ⟨n, r', h⟩)
-      · simp at h
-      · simp only [List.cons.injEq] at h
-        rw [← h.1] at hk
-        simp [Kind.opensStmt] at hk
-      · simp [List.replicate] at h
+  exact atStmtStartRev_iff _
+
+/-- `tokens[i + 1]` is missing exactly when the last token is a STRING at a statement start. -/
+theorem loopRaisesFrom_snoc (st : LoopState) (pre : List Token) (t : Token) :
+    loopRaisesFrom st (pre ++ [t]) =
+      (decide (t.kind = .string) && (stateAfter st pre [t]).prev.opensStmt) := by
+  induction pre generalizing st with
+  | nil => simp [loopRaisesFrom, stateAfter]
+  | cons a as ih =>
+    cases as with
+    | nil => simp [loopRaisesFrom, stateAfter, nextKind]
+    | cons b bs =>
+      simp only [List.cons_append, loopRaisesFrom]
+      rw [← List.cons_append, ih]
+      simp [stateAfter, nextKind]
 
 /-! ### the normalised hint comment -/
 
